@@ -302,10 +302,12 @@ func (p *CodeBuilder) startBlockStmt(current codeBlock, src []ast.Node, comment 
 	}
 	scope := types.NewScope(p.current.scope, start, end, comment)
 	p.current.codeBlockCtx, *old = codeBlockCtx{current, scope, p.stk.Len(), nil, nil, 0}, p.current.codeBlockCtx
+	verifTrace(p, "open")
 	return p
 }
 
 func (p *CodeBuilder) endBlockStmt(old *codeBlockCtx) ([]target.Stmt, int) {
+	verifTrace(p, "close")
 	flows := p.current.flows
 	if p.current.label != nil {
 		p.emitStmt(&target.EmptyStmt{})
@@ -313,6 +315,7 @@ func (p *CodeBuilder) endBlockStmt(old *codeBlockCtx) ([]target.Stmt, int) {
 	stmts := p.current.stmts
 	p.stk.SetLen(p.current.base)
 	p.current.codeBlockCtx = *old
+	verifTrace(p, "closed")
 	return stmts, flows
 }
 
